@@ -62,7 +62,7 @@ def rule_rt10(A: Analysis, rep):
               "add_op does not keep the handle in _processes")
     # nobody waits/polls on the task's Popen object
     bad = []
-    for f in A.prog.functions.values():
+    for f in A.prog.scan_functions:
         if not f.fq.startswith(("conductor.execution", "conductor.utils.output_handler", "conductor.utils.tee")):
             continue
         for c in walk_local(f.node):
@@ -168,7 +168,7 @@ def rule_inf1(A: Analysis, rep):
         ok = ok and len(r) == 1 and norm(r[0].value) == "(%s, %s)" % (hv, tv)
     rep.check(ok, "INF1", "status attributed to that pid's handle only", w.node, "the entry of the reaped pid gets the status, is removed, and is returned",
               "wait_for_next_op does not (look up, delete, fill, return) exactly the reaped pid's entry")
-    dels = [f.fq.rsplit(".", 1)[1] for f in A.prog.functions.values() for s in walk_local(f.node)
+    dels = [f.fq.rsplit(".", 1)[1] for f in A.prog.scan_functions for s in walk_local(f.node)
             if (isinstance(s, ast.Delete) and any(isinstance(t, ast.Subscript) and norm(t.value) == "self._processes" for t in s.targets))
             or (isinstance(s, ast.Call) and isinstance(s.func, ast.Attribute) and norm(s.func.value) == "self._processes" and s.func.attr in ("pop", "clear", "popitem"))]
     rep.check(sorted(dels) == ["clear", "wait_for_next_op"], "INF1", "entries leave the table only when reaped (or on reset)", None, "", "_processes entries are removed in %s" % sorted(dels), deep=False)
